@@ -1,7 +1,7 @@
 (* ScopeProofs.v — the executable scope test of Model/Scope.v implies the hypotheses of the
    end-to-end theorem; hence a pattern for which [in_scope] computes [true] is covered by it. *)
 From FR Require Import Base State Utf8 Utf8Facts Chars Ast Analyze Sem ExprLemmas SemSound Scope Vm Compile
-                       Machine CompileCorrect RunCorrect EndToEnd.
+                       Machine Param ArrowA CompileCorrect RunCorrect EndToEnd.
 From Coq Require Import Lia NArith.
 
 Lemma wf_charb_ok c : wf_charb c = true -> wf_char c.
@@ -83,4 +83,41 @@ Proof.
   intros cs W cx Ht Hl Hp bs e Hs. destruct (in_scope_sound bs e Hs) as (p & Hc & Hd & Ho).
   exists p. split; auto. intros fuel Hf max_st lim fuelv.
   exact (vm_agrees_with_reference cs W cx Ht Hl Hp bs e p Hc Hd Ho fuel Hf max_st lim fuelv).
+Qed.
+
+(* ---------- stage 3: every compiled program ---------- *)
+Lemma refsb_ok bs : forall e, refsb bs e = true -> refs_ok True (refd bs) e.
+Proof.
+  induction e using expr_ind'; intros Hb; cbn [refsb] in Hb; try exact I; auto.
+  - rewrite refs_ok_concat. induction H as [|x r Hx Hr IH]; [exact I|].
+    apply andb_true_iff in Hb as [H1 H2]. split; auto.
+  - rewrite refs_ok_alt. induction H as [|x r Hx Hr IH]; [exact I|].
+    apply andb_true_iff in Hb as [H1 H2]. split; auto.
+  - apply andb_true_iff in Hb as [Hb H3]. apply andb_true_iff in Hb as [H1 H2]. cbn [refs_ok]. auto.
+Qed.
+
+Theorem in_scope_all_sound bs e : in_scope_all bs e = true ->
+  exists p, compile bs (wrap e) = inr p /\ oke true 0 (wrap e) /\ refs_ok True (refd bs) (wrap e).
+Proof.
+  unfold in_scope_all. destruct (compile bs (wrap e)) as [er|p]; [discriminate|]. intros H.
+  apply andb_true_iff in H as [H1 H2]. exists p. split; [reflexivity|]. split; [now apply okeb_ok|now apply refsb_ok].
+Qed.
+
+Theorem vm_agrees_in_scope_all :
+  forall cs : list (list nat), valid_chars cs ->
+  forall cx : ctx, c_text cx = concat cs -> (N.of_nat (length (concat cs)) < usize_max)%N ->
+  bnd cs (c_pos cx) ->
+  forall (bs : N -> bool) (e : expr), in_scope_all bs e = true ->
+  exists p, compile bs (wrap e) = inr p /\
+  forall max_st lim fuelv,
+  match fst (vm_run cx p max_st lim fuelv) with
+  | RMatch sv => search_list cx e (S (length (c_text cx))) = Some (firstn (2 * S (ngroups e)) sv)
+  | RNoMatch => search_list cx e (S (length (c_text cx))) = None
+  | RPanic => False
+  | _ => True
+  end.
+Proof.
+  intros cs W cx Ht Hl Hp bs e Hs. destruct (in_scope_all_sound bs e Hs) as (p & Hc & Ho & Hr).
+  exists p. split; auto. intros max_st lim fuelv.
+  exact (vm_agrees_with_reference_all cs W cx Ht Hl Hp bs e p Hc Ho Hr max_st lim fuelv).
 Qed.
